@@ -62,7 +62,7 @@ def gen_ing(rng, w, cm, mergeable=True, force=None):
     elif typ == "M":
         rules = "%s>" % rng.choice(HOSTS)
     else:
-        ps = [rng.choice(["/p", "/q", "/r"]) for _ in range(1 + rng.below(3))]
+        ps = [rng.choice(["/p", "/q", "/r", "/p", "/q", "/r", "E", "/"]) for _ in range(1 + rng.below(3))]      # E = the empty path
         if not rng.chance(1, 6):
             ps = list(dict.fromkeys(ps))      # mostly distinct; sometimes a path listed twice
         rules = "%s>%s" % (rng.choice(HOSTS[:2]), "+".join(ps))
@@ -251,6 +251,29 @@ def gen_replaced_contest(rng, kinds=("ing", "vs", "ts", "pt")):
         ops.append("del|%s|d/%s" % ({"ing": "ing", "vs": "vs"}.get(kind, "ts"), rng.choice(names)))
     elif tail == 2 and kind == "ts":
         ops.append("gc|tcp1>5000>TCP>0>_>_&tcp2>5002>TCP>0>_>_")
+    return line(True, False, ops, rep=4)
+
+
+def gen_listener_handover(rng):
+    """3..5 TransportServers with hosts on ONE TCP listener (TLS-terminated), distinct ages; then one or two of them are edited to
+    another host, so that a single event changes the holder of two (listener, host) keys at once: the mover takes one key from its
+    holder and leaves another to a waiting claimant. The batch must delete before it adds and must not squash the mover away."""
+    hosts = ["a.ex", "b.ex", "c.ex"]
+    names = rng.shuffle(["a", "b", "c", "d", "e"])[: 3 + rng.below(3)]
+    ages = rng.shuffle([1, 2, 3, 4, 5, 6])
+    ops = ["gc|tcp1>5000>TCP>0>_>_"]
+    cur = {}
+    for i, n in enumerate(names):
+        cur[n] = dict(uid="u%03d" % (i + 1), ts=ages[i], gen=1, host=rng.choice(hosts[:2] if i < 3 else hosts))
+        ops.append("ts|d|%s|%s|%d|1|1|1|tcp1|TCP|%s" % (n, cur[n]["uid"], cur[n]["ts"], cur[n]["host"]))
+    for _ in range(1 + rng.below(2)):
+        n = rng.choice(names)
+        o = cur[n]
+        o["gen"] += 1
+        o["host"] = rng.choice([h for h in hosts if h != o["host"]])
+        ops.append("ts|d|%s|%s|%d|%d|1|1|tcp1|TCP|%s" % (n, o["uid"], o["ts"], o["gen"], o["host"]))
+    if rng.chance(1, 2):
+        ops.append("ing|e|z|u900|1|1|_|1|1|r|0|z.ex>/x")
     return line(True, False, ops, rep=4)
 
 
